@@ -37,10 +37,10 @@ const verifC18PubKey = "707cac687bbcaaed342a81448b7209fbaaab2b0a1f93a5d95cb6f879
 var verifC18SourceHashes = [2]bc.Hash{{V0: 1, V1: 0xc18}, {V0: 0x77, V2: 0x51}}
 
 var verifC18Sigs = [4][2]string{
-	{"f4dfbf3f244d11f43bdcd4518c49ee32945229f7bde2dad8c5345816f8bd93f31c22999b179cbf990fe0d563a8d00fc13e4e695c448b632128de3a9f27c32c03", "e42ef5971614e21e0e84291a06ab134c995fe4d8eec35996a38ac51a6a40cae4404cb7ff638359e857d1f2728be31f3a6f99308e0f3eb0efcbb2f836223f8c01", },
-	{"3cf57c713b2ce984c322d4d3285567b68b84cb39c200e24723fe8df241cfda8875b29106f1b980a9caa5e90f2c56deb8cade0d3da0d94c038548003b41061202", "c64012e0c84bf030ef61ea59e899ca74254a7a3ebfd0d26b62ee32f4ef9a9be6e12ce9844ace3528157e977e52d2c4b16cbb9d91c0b9969f575a68e254918408", },
-	{"1c3c66a025ca2475944ee8e2aa3d988fcf2164633f166e9f629d51687e75ce828c92098ecd7788ba31141934770cffd23833303f548a71ec5b4663c11b58d70c", "cbc5ebd1748f13e61254113c236c8ed78c6261f72f4af387f213805045430d3d16ea4116d5e04e65291bde5f5370235d30e71bbdb80c8bbb94357a1d759b790c", },
-	{"ddf31e6abdacf5123d508ade17b6d8da595ab3b7c23673cbdfef1748511d4bd7106d75d2f704527788a7294a42b215f1ea8783f03e3afd004af8f49beddb3907", "d103774933704c9ceb2ebc2c2b2a41f3911306a50d1f817644718b48bbb1a2fab161f570edef5dcb838b298ab5e8b9b10a7e3d70168389ba98d4ff99e5decc08", },
+	{"f4dfbf3f244d11f43bdcd4518c49ee32945229f7bde2dad8c5345816f8bd93f31c22999b179cbf990fe0d563a8d00fc13e4e695c448b632128de3a9f27c32c03", "e42ef5971614e21e0e84291a06ab134c995fe4d8eec35996a38ac51a6a40cae4404cb7ff638359e857d1f2728be31f3a6f99308e0f3eb0efcbb2f836223f8c01"},
+	{"3cf57c713b2ce984c322d4d3285567b68b84cb39c200e24723fe8df241cfda8875b29106f1b980a9caa5e90f2c56deb8cade0d3da0d94c038548003b41061202", "c64012e0c84bf030ef61ea59e899ca74254a7a3ebfd0d26b62ee32f4ef9a9be6e12ce9844ace3528157e977e52d2c4b16cbb9d91c0b9969f575a68e254918408"},
+	{"1c3c66a025ca2475944ee8e2aa3d988fcf2164633f166e9f629d51687e75ce828c92098ecd7788ba31141934770cffd23833303f548a71ec5b4663c11b58d70c", "cbc5ebd1748f13e61254113c236c8ed78c6261f72f4af387f213805045430d3d16ea4116d5e04e65291bde5f5370235d30e71bbdb80c8bbb94357a1d759b790c"},
+	{"ddf31e6abdacf5123d508ade17b6d8da595ab3b7c23673cbdfef1748511d4bd7106d75d2f704527788a7294a42b215f1ea8783f03e3afd004af8f49beddb3907", "d103774933704c9ceb2ebc2c2b2a41f3911306a50d1f817644718b48bbb1a2fab161f570edef5dcb838b298ab5e8b9b10a7e3d70168389ba98d4ff99e5decc08"},
 }
 
 type verifC18Store struct {
@@ -68,9 +68,11 @@ func (s *verifC18Store) SaveCheckpoints([]*state.Checkpoint) error { return nil 
 func (s *verifC18Store) CheckpointsFromNode(uint64, *bc.Hash) ([]*state.Checkpoint, error) {
 	return nil, nil
 }
-func (s *verifC18Store) BlockExist(*bc.Hash) bool                                 { return false }
-func (s *verifC18Store) GetBlock(*bc.Hash) (*types.Block, error)                  { return nil, errVerifC18NotFound }
-func (s *verifC18Store) GetBlockHeader(*bc.Hash) (*types.BlockHeader, error)      { return nil, errVerifC18NotFound }
+func (s *verifC18Store) BlockExist(*bc.Hash) bool                { return false }
+func (s *verifC18Store) GetBlock(*bc.Hash) (*types.Block, error) { return nil, errVerifC18NotFound }
+func (s *verifC18Store) GetBlockHeader(*bc.Hash) (*types.BlockHeader, error) {
+	return nil, errVerifC18NotFound
+}
 func (s *verifC18Store) GetStoreStatus() *state.BlockStoreState                   { return nil }
 func (s *verifC18Store) GetTransactionsUtxo(*state.UtxoViewpoint, []*bc.Tx) error { return nil }
 func (s *verifC18Store) GetUtxo(*bc.Hash) (*storage.UtxoEntry, error)             { return nil, nil }
